@@ -14,6 +14,7 @@ mod mark_run;
 mod mir_dump;
 mod mir_types;
 mod mirsem;
+mod mirstage_dump;
 mod ops_table;
 mod opt_kernels;
 mod rewrite_run;
@@ -51,6 +52,7 @@ fn main() {
     "mir-dump" => mir_dump::main(rest),
     "mir-types" => mir_types::main(rest),
     "mir-run" => mirsem::main(rest),
+    "mirstage-dump" => mirstage_dump::main(rest),
     "ops-table" => ops_table::main(rest),
     "opt-kernels" => opt_kernels::main(rest),
     "rewrite-run" => rewrite_run::main(rest),
